@@ -614,6 +614,12 @@ func CheckC03(run *evid.Run) {
 					break
 				}
 				o := hx.Observe(part)
+				if !totalOrder(h.Order, o.Set) {
+					// (what the two loads fetched through the store can hold entries the replica itself never held - the far
+					// side of a gap - and with them a tie; the property speaks of strict total orders on the entries present)
+					run.Count("limited_loads_skipped_because_the_ordering_leaves_ties", 1)
+					break
+				}
 				run.Count("limited_loads_viewed_then_merged_with_an_older_state", 1)
 				wit := func() map[string]any { m := histSample(h); m["at"] = where; return m }
 				c03Values(run, h.Order, o.Set, o.Values, "Values()", where, wit)
